@@ -116,10 +116,13 @@ func RunIso(p *IsoProgram) (v *Violation, counters map[string]int, nontrivial bo
 			r.Disk.Release()
 			closeReaders()
 			if commitDone != nil {
-				// let a commit that is still running finish before tearing down
+				// let a commit that is still running finish before tearing down; if it
+				// does not, leave file and goroutine behind (closing the File under a
+				// running Commit would only add harness-made races to the report)
 				select {
 				case <-commitDone:
 				case <-time.After(5 * time.Second):
+					return
 				}
 			}
 			r.cleanupAfterFailure()
